@@ -1,5 +1,6 @@
 //! Explorers for the layer properties C01 C02 C03 C04 C10 C11 (in-process, real libcnb code).
 mod c01;
+mod c02;
 mod c03;
 mod c04;
 
@@ -9,6 +10,7 @@ fn main() {
     let args = Args::parse();
     match args.sub.as_str() {
         "c01" => c01::run(&args),
+        "c02" => c02::run(&args),
         "c03" => c03::run(&args),
         "c04" => c04::run(&args),
         other => {
